@@ -38,7 +38,21 @@ static void cast_any()
     rc.rayOriginIndexes_[d] = (size_t)vf_param("dirty_index");
     rc.rayEndIndexes_[d] = (size_t)vf_param("dirty_index");
   }
-  auto ray = rc.cast(o, e);
+  if (vf_param("mode") == 1) {
+    // origin set once (as after earlier end-point-only casts from the same origin), then an end-point-only cast:
+    // whatever the earlier casts left in the traversal members must not matter
+    rc.setOriginPoint(o);
+    int g2 = 16;
+    for (size_t d = 0; d < D; ++d) {
+      rc.rayTMax_[d] = (S)vf_f64(GARB[g2++]);
+      rc.rayTDelta_[d] = (S)vf_f64(GARB[g2++]);
+      rc.rayDirection_[d] = (S)vf_f64(GARB[g2++]);
+      rc.rayEndPoint_[d] = (S)vf_f64(GARB[g2++]);
+      rc.rayStep_[d] = (int)vf_param("dirty_step");
+      rc.rayEndIndexes_[d] = (size_t)vf_param("dirty_index");
+    }
+  }
+  auto ray = vf_param("mode") == 1 ? rc.cast(e) : rc.cast(o, e);
   const CI io = map.computeCellIndexes(o), ie = map.computeCellIndexes(e);
   size_t l1 = 0;
   for (size_t d = 0; d < D; ++d) {l1 += io[d] > ie[d] ? io[d] - ie[d] : ie[d] - io[d];}
@@ -48,11 +62,12 @@ static void cast_any()
   vf_check(first, "first-cell-contains-the-origin");
   const S half = res / 2;
   const P dir = e - o;
+  bool walk_ok = true;
   for (size_t k = 0; k < ray.size(); ++k) {
     bool inb = true;
     for (size_t d = 0; d < D; ++d) {inb = inb & (ray[k][d] < ncell[d]);}
     vf_check(inb, "cell-inside-the-grid");
-    if (!inb) {break;}
+    if (!inb) {walk_ok = false; break;}
     P c = map.computeCellCenterPosition(ray[k]);
     if (k == 0) {
       bool in0 = true;
@@ -70,7 +85,7 @@ static void cast_any()
       }
     }
     vf_check((moved == 1) & (step != 0), "step-to-a-face-adjacent-cell");
-    if (moved != 1 || step == 0) {break;}
+    if (moved != 1 || step == 0) {walk_ok = false; break;}
     // witness that the segment meets this cell: the point where it crosses the face it was entered through
     const S border = c[axis] - step * half;
     const S t = (border - o[axis]) / dir[axis];
@@ -82,7 +97,7 @@ static void cast_any()
     }
     vf_check(hit, "segment-crosses-the-entered-cell");
   }
-  {
+  if (walk_ok) {
     P c = map.computeCellCenterPosition(ray[ray.size() - 1]);
     bool inl = true, strict = true, same = true;
     P ce = map.computeCellCenterPosition(ie);
